@@ -22,7 +22,9 @@ NUMERALS = ["0", "1", "01", "007", "00", "10", "0123456789", "123456789012345678
 VARNAMES = ["X", "True", "False", "None", "ATOM_NIL", "__builtins__", "__class__", "__debug__", "_1", "_x", "L1", "Arg1", "DoBreak",
             "CutIf1", "X1", "Variable", "Atom", "Query", "Unify", "Y_y", "NotImplemented", "Ellipsis", "_abc"]
 ATOMS = ["foo", "if", "def", "lambda", "class", "import", "l1", "arg1", "doBreak", "cutIf1", "x1", "atom", "query", "variable", "functor", "unify",
-         "listpair", "makelist", "none", "not", "is", "in", "yield", "return", "pass", "a_b", "aB9_"]
+         "listpair", "makelist", "none", "not", "is", "in", "yield", "return", "pass", "a_b", "aB9_",
+         # names that look like the key another predicate or a registered Python predicate gets in the engine
+         "tag_1", "foo_n", "p_0", "tag_1_1", "__aux", "__init__"]
 QUOTED = ["hello world", "it's", "\"dq\"", "a\nb", "x)", "):", "#c", "__import__('os')", "{0}", "é", "日本", "'; import os; '", "",
           " ", "\t", "\nimport os\n", "%", "a:-b", "[]", "A", "_", "1", "x" * 300,
           "\ufb01x", "\u210c", "\uff41bc", "x\u00aa", "caf\u00e9", "\u00b5", "\u2160", "\u1e9b\u0323",
